@@ -18,7 +18,8 @@ PER_CASE_TIMEOUT = 30
 RULE = ("random reductions: 4 strategies x 2 scitypes (inferred or explicit), series of n <= 26 distinct "
         "positive integers on a RangeIndex starting at 0/7/100, window_length 1..6, horizon = sorted "
         "subset of 1..6 (contiguous and gapped), 0-2 exogenous columns of distinct integers disjoint "
-        "from y, fh given at fit / predict / both; feasibility boundary n = wl + max(fh) - 1 + "
+        "from y, fh given at fit / predict / both, 0-5 observations appended by "
+        "update(update_params=False) before predict (4 in 9 cases); feasibility boundary n = wl + max(fh) - 1 + "
         "{-1,0,1,2,..} oversampled; plus direct calls of _sliding_window_transform and "
         "_infer_scitype/make_reduction dispatch on 4 estimator kinds.  non-trivial = accepted run "
         "with >= 2 training rows (or a rejection exactly at the boundary); distinct = distinct JSON case")
@@ -93,8 +94,13 @@ def _run_case(rng, strategy=None):
     xfut = []
     if st == "recursive" and nx:
         xfut = [[300 * (v + 1) + 150 + a for a in rng.sample(range(1, 40), fh[-1])] for v in range(nx)]
+    # observations appended by update(..., update_params=False) between fit and predict
+    k = rng.choice([0, 0, 0, 0, 0, 1, 2, 3, 5])
+    news = [[100 + a for a in rng.sample(range(1, 60), k)]] + [
+        [300 * (v + 1) + 200 + a for a in rng.sample(range(1, 40), k)] for v in range(nx)]
     return {"kind": "run", "strategy": st, "scitype": rng.choice(["tab", "ts"]),
             "explicit": rng.random() < 0.25, "y": y, "xs": xs, "wl": wl, "fh": fh, "xfut": xfut,
+            "news": news,
             "off": rng.choice([0, 0, 7, 100]),
             "fh_at": rng.choice(["fit", "both", "predict"]) if st == "recursive"
             else rng.choice(["fit", "both"])}
@@ -137,7 +143,8 @@ def exhaustive_cases():
                                 if st == "recursive" else []
                             out.append({"kind": "run", "strategy": st, "scitype": sc,
                                         "explicit": False, "y": y, "xs": xs, "wl": wl, "fh": fh,
-                                        "xfut": xfut, "off": 0, "fh_at": "fit"})
+                                        "xfut": xfut, "news": [[]] * (1 + nx), "off": 0,
+                                        "fh_at": "fit"})
     return out
 
 
@@ -308,11 +315,18 @@ def run_impl(case):
             f.fit(y, X)
         else:
             f.fit(y, X, fh=fh)
+        news = _news(case)
+        k = len(news[0])
+        if k:
+            stage = "update"
+            idx2 = pd.RangeIndex(off + n, off + n + k)
+            f.update(pd.Series(np.array(news[0], dtype=float), index=idx2),
+                     _frame(news[1:], idx2) if case["xs"] else None, update_params=False)
         stage = "predict"
         Xf = None
         if case["xfut"]:
             m = len(case["xfut"][0])
-            Xf = _frame(case["xfut"], pd.RangeIndex(off + n, off + n + m))
+            Xf = _frame(case["xfut"], pd.RangeIndex(off + n + k, off + n + k + m))
         p = f.predict(fh=None if case["fh_at"] == "fit" else fh, X=Xf)
     except Exception as e:
         if type(e).__name__ in ERRS:
@@ -341,10 +355,20 @@ def run_impl(case):
 # oracle: the theorems' conclusions restated on the implementation's output
 
 
+def _news(case):
+    return case.get("news") or [[] for _ in range(1 + len(case["xs"]))]
+
+
 def _where(case):
-    """value -> (variable, time position); future exogenous rows sit at positions n, n+1, ..."""
+    """value -> (variable, time position); observations appended by update sit at positions n, ...,
+    future exogenous rows after them"""
     n = len(case["y"])
     w = {}
+    if case["kind"] == "run":
+        for j, col in enumerate(_news(case)):
+            for t, v in enumerate(col):
+                w[v] = (j, n + t)
+        n += len(_news(case)[0])
     for t, v in enumerate(case["y"]):
         w[v] = (0, t)
     for j, col in enumerate(case["xs"]):
@@ -502,22 +526,32 @@ def oracle(case, out):
                 return "array-layout: target ndim %d" % e["tdim"]
             if len(rows) != nw or len(e["t"]) != nw:
                 return "all-full-windows-used-once: fit %d has %d rows, expected %d" % (i, len(rows), nw)
+            where = _where(case)
             for r in range(nw):
+                tpos = r + wl - 1 + fh[i]
+                if len(rows[r]) != 1:
+                    return "train-row-not-lag-window: dirrec row %d has %d variables" % (r, len(rows[r]))
+                for val in rows[r][0]:
+                    if val not in where:
+                        return "row-contains-non-observation: dirrec step %d row %d value %s" % (
+                            fh[i], r, val)
+                    if where[val][1] >= tpos:
+                        return ("row-contains-target-or-later-value: dirrec fit for step %d row %d "
+                                "holds position %d, target at %d" % (fh[i], r, where[val][1], tpos))
                 want = case["y"][r:r + wl] + [case["y"][r + wl - 1 + h] for h in fh[:i]]
                 if rows[r] != [want]:
                     return ("train-row-not-lag-window: dirrec fit for step %d row %d got %s expected "
                             "window + earlier targets %s" % (fh[i], r, rows[r], want))
-                if e["t"][r] != case["y"][r + wl - 1 + fh[i]]:
+                if e["t"][r] != case["y"][tpos]:
                     return "target-not-h-steps-after-window: dirrec step %d row %d got %s" % (
                         fh[i], r, e["t"][r])
-                where = _where(case)
-                if any(where[v][1] >= r + wl - 1 + fh[i] for v in want):
-                    return "row-contains-target-or-later-value: dirrec step %d row %d" % (fh[i], r)
             f = None
         if f:
             return f
-    # --- prediction data flow
-    last = [z[n - wl:] for z in zs]
+    # --- prediction data flow: the series as known at prediction time (after update)
+    zp = [z + a for z, a in zip(zs, _news(case))]
+    n = len(zp[0])
+    last = [z[n - wl:] for z in zp]
 
     def view(x, nv):
         v = _rows3(x, nd, nv, "predict")
@@ -539,8 +573,8 @@ def oracle(case, out):
         fm = fh[-1]
         if len(preds) != fm:
             return "number-of-predict-calls: %d expected max(fh) = %d" % (len(preds), fm)
-        ext = [case["y"] + [e["ret"] for e in preds]] + [
-            c + f for c, f in zip(case["xs"], case["xfut"] or [[]] * len(case["xs"]))]
+        ext = [zp[0] + [e["ret"] for e in preds]] + [
+            c + f for c, f in zip(zp[1:], case["xfut"] or [[]] * len(case["xs"]))]
         for i, e in enumerate(preds):
             want = [s[n - wl + i:n + i] for s in ext]
             if view(e["X"], len(zs)) != want:
@@ -556,7 +590,7 @@ def oracle(case, out):
         if len(preds) != len(fh):
             return "number-of-predict-calls: %d expected %d" % (len(preds), len(fh))
         for i, e in enumerate(preds):
-            want = [case["y"][n - wl:] + [p["ret"] for p in preds[:i]]]
+            want = [zp[0][n - wl:] + [p["ret"] for p in preds[:i]]]
             if view(e["X"], 1) != want:
                 return ("dirrec-feedback: step index %d input %s expected last window followed by "
                         "the earlier predictions %s" % (i, e["X"], want))
@@ -597,11 +631,20 @@ def shrink(case):
                 d["y"] = c["y"][:m]
                 d["xs"] = [x[:m] for x in c["xs"]]
                 yield d
+    if c["kind"] == "run" and _news(c)[0]:
+        d = dict(c)
+        d["news"] = [[] for _ in _news(c)]
+        yield d
+        d = dict(c)
+        d["news"] = [a[:-1] for a in _news(c)]
+        yield d
     if c["xs"]:
         d = dict(c)
         d["xs"] = c["xs"][:-1]
         if c.get("xfut"):
             d["xfut"] = c["xfut"][:-1]
+        if c.get("news"):
+            d["news"] = c["news"][:-1]
         yield d
     if c["wl"] > 1:
         d = dict(c)
@@ -717,8 +760,9 @@ def coq_case(case, out):
                 return "CSwt %s %s (Some ([], [RTab []]))" % (_SC[case["scitype"]], _cinputs(case))
             o = "(Some (%s, %s))" % (_czll(out["yt"]), X)
         return "CSwt %s %s %s" % (_SC[case["scitype"]], _cinputs(case), o)
-    return "CRun %s %s %s %s %s %s" % (_ST[case["strategy"]], _SC[case["scitype"]], _cinputs(case),
-                                      _czll(case["xfut"]), cz(case["off"]), _crun_out(out))
+    return "CRun %s %s %s %s %s %s %s" % (_ST[case["strategy"]], _SC[case["scitype"]], _cinputs(case),
+                                         _czll(case["xfut"]), _czll(_news(case)), cz(case["off"]),
+                                         _crun_out(out))
 
 
 def coq_model_term(case):
@@ -728,9 +772,10 @@ def coq_model_term(case):
         return "infer_scitype %s %s" % (cbool(e in ("ts", "both")), cbool(e in ("tab", "both")))
     if k == "swt":
         return "swt_view %s %s" % (_SC[case["scitype"]], _cinputs(case))
-    return "(model_run %s %s %s %s, forecast_index %s %s %s)" % (
+    return "(model_run %s %s %s %s %s, forecast_index %s %s %s)" % (
         _ST[case["strategy"]], _SC[case["scitype"]], _cinputs(case), _czll(case["xfut"]),
-        cz(case["off"]), cz(len(case["y"])), czlist(case["fh"]))
+        _czll(_news(case)), cz(case["off"]), cz(len(case["y"]) + len(_news(case)[0])),
+        czlist(case["fh"]))
 
 
 def distribution(cases, results):
@@ -741,6 +786,7 @@ def distribution(cases, results):
         if c["kind"] == "run":
             d["run:%s:%s:%s" % (c["strategy"], c["scitype"], "rejected" if "err" in o else "accepted")] += 1
             d["run:exog=%d" % len(c["xs"])] += 1
+            d["run:update=%s" % ("yes" if _news(c)[0] else "no")] += 1
             gap = c["fh"] != list(range(1, len(c["fh"]) + 1))
             d["run:fh=%s" % ("gapped" if gap else "contiguous")] += 1
         else:
